@@ -506,21 +506,21 @@ func (e *Entity) Commit(repo repository.ClockedRepo) error {
 		var author identity.Interface
 		var toCommit []Operation
 
-		// Split into chunks with the same author
-		for len(e.staging) > 0 {
-			op := e.staging[0]
+		// Split into chunks with the same author. The chunk leaves the staging area only
+		// once it is written: after a failed write every operation is still held by the entity.
+		for _, op := range e.staging {
 			if author != nil && op.Author().Id() != author.Id() {
 				break
 			}
-			author = e.staging[0].Author()
+			author = op.Author()
 			toCommit = append(toCommit, op)
-			e.staging = e.staging[1:]
 		}
 
-		e.editTime, err = repo.Increment(fmt.Sprintf(editClockPattern, e.Namespace))
+		editTime, err := repo.Increment(fmt.Sprintf(editClockPattern, e.Namespace))
 		if err != nil {
 			return err
 		}
+		e.editTime = editTime
 
 		opp := &operationPack{
 			Author:     author,
@@ -529,10 +529,11 @@ func (e *Entity) Commit(repo repository.ClockedRepo) error {
 		}
 
 		if e.lastCommit == "" {
-			e.createTime, err = repo.Increment(fmt.Sprintf(creationClockPattern, e.Namespace))
+			createTime, err := repo.Increment(fmt.Sprintf(creationClockPattern, e.Namespace))
 			if err != nil {
 				return err
 			}
+			e.createTime = createTime
 			opp.CreateTime = e.createTime
 		}
 
@@ -548,6 +549,7 @@ func (e *Entity) Commit(repo repository.ClockedRepo) error {
 
 		e.lastCommit = commitHash
 		e.ops = append(e.ops, toCommit...)
+		e.staging = e.staging[len(toCommit):]
 	}
 
 	// not strictly necessary but make equality testing easier in tests
